@@ -21,16 +21,23 @@ def pat_names(names):
     return pn
 
 
+NO_CONSTS = {"MhlEnv", "MhlCommitTrace", "MhlXmlTrace", "MhlTimeTrace", "MhlHasherTrace", "MhlUpdaterTrace"}
+
+
 def write_trace_module(wd, modname, trace_module, names, extra_defs=""):
     pn = pat_names(names)
     with open(os.path.join(wd, modname + ".tla"), "w") as fh:
         fh.write("---- MODULE %s ----\nEXTENDS %s\n" % (modname, trace_module))
-        fh.write("c_Fmts == %s\n" % tlc.tla(tuple(FMTS)))
-        fh.write("c_PatNames == %s\n" % tlc.tla(tlc.Fn({k: set(v) for k, v in sorted(pn.items())})))
+        if trace_module not in NO_CONSTS:
+            fh.write("c_Fmts == %s\n" % tlc.tla(tuple(FMTS)))
+            fh.write("c_PatNames == %s\n" % tlc.tla(tlc.Fn({k: set(v) for k, v in sorted(pn.items())})))
         fh.write(extra_defs)
         fh.write("====\n")
     with open(os.path.join(wd, modname + ".cfg"), "w") as fh:
-        fh.write("SPECIFICATION Spec\nCONSTANTS\n Fmts <- c_Fmts\n PatNames <- c_PatNames\n")
+        if trace_module not in NO_CONSTS:
+            fh.write("SPECIFICATION Spec\nCONSTANTS\n Fmts <- c_Fmts\n PatNames <- c_PatNames\n")
+        else:
+            fh.write("SPECIFICATION Spec\n")
 
 
 def _run_shard(args):
